@@ -306,6 +306,170 @@ fn program(rng: &mut Rng, kind: FaultKind, inject: bool, depth: usize) -> Progra
     Program { items, depth, nest_total }
 }
 
+/// How the first (handled) error is handled.
+#[derive(Clone, Copy, Debug, PartialEq, Eq)]
+enum Mode {
+    /// ON ERROR GOTO Handler … RESUME Recovered (a module-level label: the procedures are left)
+    ResumeLabel,
+    /// ON ERROR GOTO Handler … RESUME NEXT (continues after the failing statement, inside the procedure)
+    ResumeNext,
+    /// ON ERROR GOTO Handler … the handler repairs the cause … RESUME (re-executes the failing statement)
+    Resume,
+    /// ON ERROR RESUME NEXT (no handler)
+    OnErrorResumeNext,
+}
+
+/// Where the second, unhandled fault is.
+#[derive(Clone, Copy, Debug, PartialEq, Eq)]
+enum Place {
+    /// at the module level, after the first call chain is over
+    Module,
+    /// inside a different chain of procedures, called later from the module level
+    OtherProc,
+    /// in the same innermost procedure, after the handled fault (the first chain is still active)
+    SameProc,
+}
+
+const MODES: &[Mode] = &[Mode::ResumeLabel, Mode::ResumeNext, Mode::Resume, Mode::OnErrorResumeNext];
+
+impl Mode {
+    fn name(self) -> &'static str {
+        match self {
+            Mode::ResumeLabel => "resume-label",
+            Mode::ResumeNext => "resume-next",
+            Mode::Resume => "resume",
+            Mode::OnErrorResumeNext => "on-error-resume-next",
+        }
+    }
+}
+
+impl Place {
+    fn name(self) -> &'static str {
+        match self {
+            Place::Module => "module-level",
+            Place::OtherProc => "other-procedure",
+            Place::SameProc => "same-procedure",
+        }
+    }
+}
+
+/// A program with a history: a first error inside `d1` nested procedures is handled (`mode`), then a second,
+/// unhandled fault of kind `kind` happens at `place`.  The tags mark the second fault and the call sites that
+/// are active when it happens.
+fn history_program(rng: &mut Rng, kind: FaultKind, inject: bool, d1: usize, d2: usize, mode: Mode, place: Place) -> Program {
+    let mut uniq = 1000usize;
+    let mut items: Vec<Item> = vec![];
+    for k in 1..=d1 {
+        items.push(alone(format!("DECLARE SUB A{} (N%)", k)));
+    }
+    if place == Place::OtherProc {
+        for k in 1..=d2 {
+            items.push(alone(format!("DECLARE SUB B{} (N%)", k)));
+        }
+    }
+    items.push(alone("DIM SHARED DZ"));
+    items.push(alone("DIM SHARED HV&"));
+    items.push(alone("DIM SHARED ES$"));
+    items.push(simple("HV& = 40000"));
+    items.push(simple("ES$ = \"oops\""));
+    items.push(alone(if mode == Mode::OnErrorResumeNext { "ON ERROR RESUME NEXT" } else { "ON ERROR GOTO Handler" }));
+    // the second fault (or its harmless twin)
+    let mut frng = Rng(rng.next_u64());
+    let mut second = fault_items(&mut frng, kind);
+    if !inject {
+        for it in second.iter_mut() {
+            if it.tag == Tag::Fault {
+                it.text = "Q = 1".to_owned();
+            }
+        }
+    }
+    let mut nest_total = 0;
+    let mut nest = |rng: &mut Rng, max: u64| {
+        let n = rng.below(max + 1) as usize;
+        nest_total = nest_total.max(n);
+        n
+    };
+    // module level, part 1: the call into the first chain (not inside blocks when RESUME jumps to a label)
+    let call_a = Item { text: "A1 1".into(), alone: false, tag: if place == Place::SameProc { Tag::Call(0) } else { Tag::None } };
+    let n = if mode == Mode::ResumeLabel { 0 } else { nest(rng, 3) };
+    items.extend(body(rng, &mut uniq, n, vec![call_a], true));
+    if mode == Mode::ResumeLabel {
+        items.push(alone("Recovered:"));
+    }
+    items.push(alone("ON ERROR GOTO 0"));
+    // module level, part 2
+    match place {
+        Place::Module => {
+            let n = nest(rng, 3);
+            items.extend(body(rng, &mut uniq, n, second.clone(), true));
+        }
+        Place::OtherProc => {
+            let n = nest(rng, 3);
+            let call_b = Item { text: "B1 1".into(), alone: false, tag: Tag::Call(0) };
+            items.extend(body(rng, &mut uniq, n, vec![call_b], true));
+        }
+        Place::SameProc => {
+            items.push(filler(rng, &mut uniq));
+        }
+    }
+    items.push(simple("END"));
+    if mode != Mode::OnErrorResumeNext {
+        items.push(alone("Handler:"));
+        // the handler repairs the cause of the first error (needed by RESUME, harmless otherwise)
+        items.push(simple("DZ = 1"));
+        items.push(simple("HV& = 1"));
+        items.push(simple("ES$ = \"A=B\""));
+        items.push(alone(match mode {
+            Mode::ResumeLabel => "RESUME Recovered",
+            Mode::ResumeNext => "RESUME NEXT",
+            _ => "RESUME",
+        }));
+    }
+    // the first chain; its innermost procedure raises the first error
+    let first_fault = simple(*rng.pick(&["Q = 1 / DZ", "HI% = HV&", "ENVIRON ES$", "Q% = 7 MOD DZ"]));
+    for k in 1..=d1 {
+        items.push(alone(format!("SUB A{} (N%)", k)));
+        let payload: Vec<Item> = if k < d1 {
+            vec![Item {
+                text: format!("A{} {}", k + 1, k + 1),
+                alone: false,
+                tag: if place == Place::SameProc { Tag::Call(k) } else { Tag::None },
+            }]
+        } else {
+            let mut v = vec![first_fault.clone()];
+            if place == Place::SameProc {
+                v.push(filler(rng, &mut uniq));
+                // from here on errors are not handled any more
+                v.push(alone("ON ERROR GOTO 0"));
+                v.extend(second.clone());
+            }
+            v
+        };
+        let n = nest(rng, 3);
+        items.extend(body(rng, &mut uniq, n, payload, true));
+        items.push(alone("END SUB"));
+    }
+    if place == Place::OtherProc {
+        for k in 1..=d2 {
+            items.push(alone(format!("SUB B{} (N%)", k)));
+            let payload: Vec<Item> = if k < d2 {
+                vec![Item { text: format!("B{} {}", k + 1, k + 1), alone: false, tag: Tag::Call(k) }]
+            } else {
+                second.clone()
+            };
+            let n = nest(rng, 3);
+            items.extend(body(rng, &mut uniq, n, payload, true));
+            items.push(alone("END SUB"));
+        }
+    }
+    let depth = match place {
+        Place::Module => 0,
+        Place::OtherProc => d2,
+        Place::SameProc => d1,
+    };
+    Program { items, depth, nest_total }
+}
+
 struct Rendered {
     text: String,
     /// character offsets [start, end) of every item
@@ -414,16 +578,18 @@ fn run(text: &str, observe: bool) -> Diag {
         Err(FrontEndError::Lint(e)) => Diag::Lint((e.pos.row(), e.pos.col()), format!("{:?}", e.element)),
         Ok((igr, udt)) => {
             // what the bookkeeping sees of each instruction
-            let evs: Vec<(String, bool)> = igr
+            // (event, kind): kind 1 = built-in (fails with the stacktrace's copy), 2 = RESUME label
+            let evs: Vec<(String, u8)> = igr
                 .instructions
                 .iter()
                 .map(|ip| {
                     let p = ip.pos;
                     match &ip.element {
-                        Instruction::PushStack | Instruction::PushStaticStack(_) => (format!("(push {} {})", p.row(), p.col()), false),
-                        Instruction::PopStack => ("pop".to_owned(), false),
-                        Instruction::BuiltInSub(_) | Instruction::BuiltInFunction(_) => ("other".to_owned(), true),
-                        _ => ("other".to_owned(), false),
+                        Instruction::PushStack | Instruction::PushStaticStack(_) => (format!("(push {} {})", p.row(), p.col()), 0),
+                        Instruction::PopStack => ("pop".to_owned(), 0),
+                        Instruction::BuiltInSub(_) | Instruction::BuiltInFunction(_) => ("other".to_owned(), 1),
+                        Instruction::ResumeLabel(_) => ("clear".to_owned(), 2),
+                        _ => ("other".to_owned(), 0),
                     }
                 })
                 .collect();
@@ -445,8 +611,15 @@ fn run(text: &str, observe: bool) -> Diag {
                     let t = trace.borrow();
                     let model = if !t.is_empty() && t.len() < 20_000 {
                         let (pc, row, col, _) = &t[t.len() - 1];
-                        let before: Vec<String> = t[..t.len() - 1].iter().map(|(pc, ..)| evs[*pc].0.clone()).collect();
-                        let fault = if evs[*pc].1 { "builtin".to_owned() } else { format!("(instr {} {})", row, col) };
+                        // a built-in that is not followed by the next instruction failed and its error was
+                        // handled: `abandon_failed_call` drops its stacktrace entry
+                        let before: Vec<String> = (0..t.len() - 1)
+                            .map(|j| {
+                                let pc_j = t[j].0;
+                                if evs[pc_j].1 == 1 && t[j + 1].0 != pc_j + 1 { "drop".to_owned() } else { evs[pc_j].0.clone() }
+                            })
+                            .collect();
+                        let fault = if evs[*pc].1 == 1 { "builtin".to_owned() } else { format!("(instr {} {})", row, col) };
                         Some((sx::list(before), fault))
                     } else {
                         None
@@ -505,8 +678,35 @@ fn run_cases(seed: u64, cases: Vec<usize>) -> Out {
         let mut g1 = rng.clone();
         let mut g2 = rng.clone();
         rng.next_u64();
-        let faulty = program(&mut g1, kind, true, depth);
-        let base = program(&mut g2, kind, false, depth);
+        // every third case has a history: a first, handled error inside nested procedures, then the fault
+        let history: Option<(Mode, Place, usize, usize)> = if case % 3 == 2 {
+            let h = case / 3;
+            let mode = MODES[h % MODES.len()];
+            let place = match (h / MODES.len()) % 3 {
+                0 => Place::Module,
+                1 => Place::OtherProc,
+                _ => if mode == Mode::ResumeLabel { Place::OtherProc } else { Place::SameProc },
+            };
+            Some((mode, place, 1 + (h / 12) % 3, 1 + (h / 36) % 3))
+        } else {
+            None
+        };
+        // the checked fault of a history case is a run-time fault
+        let kind = match history {
+            Some(_) if !kind.is_runtime() => [FaultKind::DivZero, FaultKind::Subscript, FaultKind::Overflow, FaultKind::BuiltIn][(case / 3) % 4],
+            _ => kind,
+        };
+        let sig = match history {
+            Some((m, p, ..)) => format!("history({},{}):", m.name(), p.name()),
+            None => String::new(),
+        };
+        let (faulty, base) = match history {
+            Some((mode, place, d1, d2)) => (
+                history_program(&mut g1, kind, true, d1, d2, mode, place),
+                history_program(&mut g2, kind, false, d1, d2, mode, place),
+            ),
+            None => (program(&mut g1, kind, true, depth), program(&mut g2, kind, false, depth)),
+        };
         let mut l1 = Rng(rng.next_u64());
         let mut l2 = l1.clone();
         let rf = render(&mut l1, &faulty.items);
@@ -525,7 +725,7 @@ fn run_cases(seed: u64, cases: Vec<usize>) -> Out {
                 };
                 out.fail(Failure {
                     kind: Kind::ImplVsProperty,
-                    signature: format!("base-program-not-accepted:{}", rb.eol_style),
+                    signature: format!("{}base-program-not-accepted:{}", sig, rb.eol_style),
                     input: rb.text.clone(),
                     implementation: what,
                     expected: "accepted and run without error".into(),
@@ -555,8 +755,16 @@ fn run_cases(seed: u64, cases: Vec<usize>) -> Out {
         out.expects.push((format!("({} {})", frow, fc1), "model:human(statement end)".into(), rf.text.clone()));
 
         let stmt = &faulty.items[fi].text;
+        if let Some((m, p, d1, _)) = history {
+            out.bump(&format!("history.mode.{}", m.name()));
+            out.bump(&format!("history.second-fault.{}", p.name()));
+            out.bump(&format!("history.first-chain-depth.{}", d1));
+        } else {
+            out.bump("history.none");
+        }
         out.case(Some(format!(
-            "{}|d{}|n{}|{}|{}|r{}",
+            "{}{}|d{}|n{}|{}|{}|r{}",
+            sig,
             kind.name(),
             faulty.depth,
             faulty.nest_total,
@@ -596,7 +804,7 @@ fn run_cases(seed: u64, cases: Vec<usize>) -> Out {
             if p.0 != frow {
                 out.fail(Failure {
                     kind: Kind::ImplVsProperty,
-                    signature: format!("{}:{}:wrong-row", kind.name(), stage),
+                    signature: format!("{}{}:{}:wrong-row", sig, kind.name(), stage),
                     input: rf.text.clone(),
                     implementation: describe(stage, p, e),
                     expected: expected.clone(),
@@ -607,9 +815,9 @@ fn run_cases(seed: u64, cases: Vec<usize>) -> Out {
                     kind: Kind::ImplVsProperty,
                     signature: if p.1 == fc1 + slack + 1 {
                         // exactly one column past the statement's last character
-                        format!("{}:{}:column-one-past-statement", kind.name(), stage)
+                        format!("{}{}:{}:column-one-past-statement", sig, kind.name(), stage)
                     } else {
-                        format!("{}:{}:column-outside-statement", kind.name(), stage)
+                        format!("{}{}:{}:column-outside-statement", sig, kind.name(), stage)
                     },
                     input: rf.text.clone(),
                     implementation: describe(stage, p, e),
@@ -621,7 +829,7 @@ fn run_cases(seed: u64, cases: Vec<usize>) -> Out {
         match run(&rf.text, kind.is_runtime()) {
             Diag::Accepted => out.fail(Failure {
                 kind: Kind::ImplVsProperty,
-                signature: format!("{}:no-diagnostic", kind.name()),
+                signature: format!("{}{}:no-diagnostic", sig, kind.name()),
                 input: rf.text.clone(),
                 implementation: "program ran to its end without any error".into(),
                 expected: expected.clone(),
@@ -629,7 +837,7 @@ fn run_cases(seed: u64, cases: Vec<usize>) -> Out {
             }),
             Diag::Panic => out.fail(Failure {
                 kind: Kind::ImplVsProperty,
-                signature: format!("{}:panic", kind.name()),
+                signature: format!("{}{}:panic", sig, kind.name()),
                 input: rf.text.clone(),
                 implementation: "panic".into(),
                 expected: expected.clone(),
@@ -648,7 +856,7 @@ fn run_cases(seed: u64, cases: Vec<usize>) -> Out {
                 if ps.is_empty() {
                     out.fail(Failure {
                         kind: Kind::ImplVsProperty,
-                        signature: format!("{}:runtime:no-position", kind.name()),
+                        signature: format!("{}{}:runtime:no-position", sig, kind.name()),
                         input: rf.text.clone(),
                         implementation: format!("runtime error {} without positions", e),
                         expected: expected.clone(),
@@ -661,7 +869,7 @@ fn run_cases(seed: u64, cases: Vec<usize>) -> Out {
                 if got_rows != call_rows {
                     out.fail(Failure {
                         kind: Kind::ImplVsProperty,
-                        signature: format!("{}:runtime:call-sites", kind.name()),
+                        signature: format!("{}{}:runtime:call-sites", sig, kind.name()),
                         input: rf.text.clone(),
                         implementation: format!("runtime error {} positions {:?}", e, ps),
                         expected: expected.clone(),
